@@ -150,12 +150,23 @@ Proof.
   destruct (N.eqb x c_nl); apply IH; exact H2.
 Qed.
 
+(* a text that does not start with a blank line (or a space) is lexed from offset 0: the pre-pass over leading blank
+   lines (Lexer.init_state) does nothing *)
+Definition nonblank_head (t : str) : bool :=
+  match t with c :: _ => negb (N.eqb c c_sp) && negb (N.eqb c c_nl) | [] => true end.
+
+Lemma init_state_nonblank t spans : nonblank_head t = true -> init_state t spans = mkLS t None 0 1 1 [] [] [] spans.
+Proof.
+  destruct t as [|c r]; [reflexivity|]. cbn [nonblank_head]. intros H. apply andb_true_iff in H as [H1 H2].
+  apply negb_true_iff in H1, H2. unfold init_state. cbn [lead_blank]. rewrite H1, H2. reflexivity.
+Qed.
+
 Lemma tokenize_plain lenient t :
-  forallb fence_free (split_on c_nl t) = true -> memb c_tab t = false ->
+  forallb fence_free (split_on c_nl t) = true -> memb c_tab t = false -> nonblank_head t = true ->
   tokenize cls lenient (lines_of t) = run cls lenient (S (length t)) (mkLS t None 0 1 1 [] [] [] []).
 Proof.
-  intros Hf Ht. unfold tokenize, lines_of. rewrite (fence_scan_plain _ Hf). cbn [rev app].
-  rewrite join_split. rewrite (tab_check_none _ Ht). reflexivity.
+  intros Hf Ht Hn. unfold tokenize, lines_of. rewrite (fence_scan_plain _ Hf). cbn [rev app].
+  rewrite join_split. rewrite (tab_check_none _ Ht). rewrite (init_state_nonblank _ _ Hn). reflexivity.
 Qed.
 
 (* ---- fuel-free reachability ------------------------------------------------------------------------------------ *)
